@@ -333,6 +333,56 @@ func genDec(r *vc.Rand, thorough bool) []caseLine {
 	return out
 }
 
+// sweepSizes: payload sizes for the dense writer sweeps: every size 0..2048 (quick) / 0..4096 (thorough),
+// +-32 around 4K/8K/16K/32K and below/at/above MaxFrameSize (sizes above the limit only if `over`).
+func sweepSizes(thorough, over bool) []int {
+	top := 2048
+	if thorough {
+		top = 4096
+	}
+	var out []int
+	for n := 0; n <= top; n++ {
+		out = append(out, n)
+	}
+	for _, p := range []int{4096, 8192, 16384, 32768, maxFrame} {
+		for n := p - 32; n <= p+32; n++ {
+			if n > top && (n <= maxFrame || over) {
+				out = append(out, n)
+			}
+		}
+	}
+	return out
+}
+
+// lastChunkSizes: sizes of the LAST chunk of a multi-frame FrameStream.Write.
+func lastChunkSizes(thorough bool) []int {
+	seen := map[int]bool{}
+	var out []int
+	add := func(lo, hi, step int) {
+		for n := lo; n <= hi; n += step {
+			if n >= 0 && n < maxFrame && !seen[n] {
+				seen[n] = true
+				out = append(out, n)
+			}
+		}
+	}
+	if thorough {
+		add(0, 2048, 1)
+		for p := 4096; p <= 32768; p *= 2 {
+			add(p-32, p+32, 1)
+		}
+		add(maxFrame-32, maxFrame-1, 1)
+		return out
+	}
+	add(0, 40, 1)
+	add(1400, 1500, 1) // MTU / MSS sized
+	for p := 64; p <= 32768; p *= 2 {
+		add(p-2, p+2, 1)
+	}
+	add(maxFrame-32, maxFrame-1, 4)
+	return out
+}
+
 func rtCase(fs []gframe, sizes []int, tailErr bool, kind string) caseLine {
 	var sb strings.Builder
 	fmt.Fprintf(&sb, "rt %s fr %d", tailStr(tailErr), len(fs))
@@ -387,6 +437,15 @@ func genRt(r *vc.Rand, thorough bool) []caseLine {
 			out = append(out, rtCase(fs, []int{cut, n - cut}, false, "single-cut"))
 		}
 		out = append(out, rtCase(fs, ones(n), r.Bool(), "one-byte"))
+	}
+	// (2b) dense payload-size sweep through WriteFrameToWriter (refused sizes above the limit included)
+	sw := sweepSizes(thorough, true)
+	for i := 0; i < len(sw); i += 32 {
+		var fs []gframe
+		for _, n := range sw[i:min(i+32, len(sw))] {
+			fs = append(fs, gframe{vc.Pick(r, someIDs), vc.Pick(r, []int{1, 1, 3, 9, 2, 0x10}), n, r.Intn(256)})
+		}
+		out = append(out, rtCase(fs, randSizes(r, wireLenOf(fs), 40), r.Intn(6) == 0, "size-sweep"))
 	}
 	// (3) random sequences and partitions
 	rounds := 800
